@@ -168,6 +168,7 @@ def run(tier):
     c = search.gen_case(ck.seed * 100003 + 12 * 1009 + i, tier, max_geos=5)
     c['shuffle'] = False
     c['int_ids'] = False
+    c['int_response'] = False          # the transformations of this check scale and split the responses
     c['dup_cells'] = i % 3 == 2
     cases.append(c)
   # geos whose required impacts are exactly tied (series that differ by a constant) competing for the last n_geos_max slot:
@@ -192,6 +193,7 @@ def run(tier):
     c['shuffle'] = False
     c['int_ids'] = False
     c['dup_cells'] = False
+    c['int_response'] = False
     c['history'] = None
     c.pop('zero_sum_geo', None)
     cases.append(c)
